@@ -6,6 +6,7 @@ import MosnVerif.Lemmas.ReadLoop
 import MosnVerif.Model.ReadLoopSpec
 import MosnVerif.Lemmas.DispatchCtx
 import MosnVerif.Model.DispatchCtxSpec
+import MosnVerif.Lemmas.FrameOwn
 /-!
 # C07 — message extraction is independent of how TCP segments the byte stream (property theorems only)
 
@@ -390,5 +391,173 @@ example : views hoistedShape true (DispatchCtx.run hoistedShape true [[cq1, cq2]
 example : views hoistedShape true (DispatchCtx.run hoistedShape true [[cq1, cq2, cq3]]) = [own cq3, own cq3, own cq3] := by decide
 
 end DispatchContext
+
+/-! ## Content locality and ownership (Model/FrameOwn): the CONTENTS of message `i` do not depend on the chunking -/
+section ContentOwnership
+open MosnVerif.Model.FrameOwn
+open MosnVerif.Gen.FrameOwn
+
+/-- **parsers_read_frame_only**: in the current decoders (regenerated lists of every use of the read buffer in
+decodeRequest / decodeResponse / decodeFrame of bolt, boltv2, dubbo, dubbothrift, tars and of the slice each TarsGo
+reader is constructed on) no field parser is handed an open slice of the read buffer or the buffer itself: every
+payload parser is constructed on the private copy of exactly the drained frame, every direct read is a closed slice
+inside the frame. -/
+theorem parsers_read_frame_only :
+    viewOf "bolt" = .frameCopy ∧ viewOf "boltv2" = .frameCopy ∧ viewOf "dubbo" = .frameCopy ∧
+    viewOf "thrift" = .frameCopy ∧ viewOf "tars" = .frameCopy := by decide
+
+theorem hdrOf_stable (proto : String) (h : Bytes → Hdr) (hp : hdrOf proto = some h) : HdrStable h := by
+  unfold hdrOf at hp
+  split at hp <;> simp at hp <;> subst hp
+  · exact boltHdr_stable false
+  · exact boltHdr_stable true
+  · exact dubboHdr_stable
+  · exact thriftHdr_stable
+  · exact tarsHdr_stable
+
+theorem viewOf_frameCopy (proto : String) (h : Bytes → Hdr) (hp : hdrOf proto = some h) : viewOf proto = .frameCopy := by
+  unfold hdrOf at hp
+  split at hp <;> simp at hp
+  · exact parsers_read_frame_only.1
+  · exact parsers_read_frame_only.2.1
+  · exact parsers_read_frame_only.2.2.1
+  · exact parsers_read_frame_only.2.2.2.1
+  · exact parsers_read_frame_only.2.2.2.2
+
+/-- **content_local** (one Decode call, every buffer suffix): for every xprotocol, EVERY payload parser `parse`
+(hessian2, thrift, TarsGo, KV block: any function of the bytes it is constructed on), every buffer `p` holding a
+complete frame and EVERY suffix `e` buffered behind it — a complete neighbour, a neighbour cut inside a head, garbage —
+Decode answers on `p ++ e` exactly what it answers on `p`: same verdict (a valid frame is never rejected because of what
+follows it), same frame bytes, same decoded content. -/
+theorem content_local {C : Type} (proto : String) (parse : Bytes → Option C) (d : Bytes → Step (Bytes × C))
+    (hd : contentStep proto parse = some d) (p e : Bytes) (hp : d p ≠ .needMore) : d (p ++ e) = d p := by
+  unfold contentStep at hd
+  cases hh : hdrOf proto with
+  | none => simp [hh] at hd
+  | some h =>
+    simp only [hh, Option.map_some, Option.some.injEq] at hd
+    subst hd
+    rw [viewOf_frameCopy proto h hh] at hp ⊢
+    have hs := hdrOf_stable proto h hh
+    cases hl : h p with
+    | needMore => exact absurd (by simp [envelopeC, hl]) hp
+    | error => simp only [envelopeC, hl, hs.errExt p e hl]
+    | len n => exact envelopeC_suffix h hs parse p e n hl
+
+/-- the content decoder of every xprotocol is prefix-stable, for every payload parser: all of
+`segmentation_independent` applies to (frame bytes, decoded content) pairs -/
+theorem stable_content {C : Type} (proto : String) (parse : Bytes → Option C) (d : Bytes → Step (Bytes × C))
+    (hd : contentStep proto parse = some d) : Stable d := by
+  unfold contentStep at hd
+  cases hh : hdrOf proto with
+  | none => simp [hh] at hd
+  | some h =>
+    simp only [hh, Option.map_some, Option.some.injEq] at hd
+    subst hd
+    rw [viewOf_frameCopy proto h hh]
+    exact envelopeC_stable h (hdrOf_stable proto h hh) parse
+
+/-- **content_local_stream**: a stream of frames `fs` (each complete by its own header: `h f = len |f|`, each parsed
+alone to `val f`) followed by an incomplete tail, delivered in ANY chunking: the connection hands on, in order, each
+once, the pairs (frame i, `val (frame i)`): the decoded content of frame `i` is a function of frame `i`'s bytes only —
+nothing of a neighbour is attributed to it and no neighbour makes it fail. -/
+theorem content_local_stream {C : Type} (proto : String) (parse : Bytes → Option C) (h : Bytes → Hdr)
+    (d : Bytes → Step (Bytes × C)) (hh : hdrOf proto = some h) (hd : contentStep proto parse = some d)
+    (val : Bytes → C) (fs : List Bytes) (t : Bytes)
+    (hv : ∀ f ∈ fs, h f = .len f.length ∧ parse f = some (val f)) (ht : t = [] ∨ h t = .needMore)
+    (chunks : List Bytes) (hc : chunks.flatten = fs.flatten ++ t) :
+    run d chunks = { buf := t, out := fs.map (fun f => (f, val f)), failed := false } := by
+  have hs := stable_content proto parse d hd
+  have hst := hdrOf_stable proto h hh
+  have hdv : d = envelopeC h .frameCopy parse := by
+    unfold contentStep at hd
+    simp only [hh, Option.map_some, Option.some.injEq] at hd
+    rw [← hd, viewOf_frameCopy proto h hh]
+  rw [run_eq_feed d hs chunks, hc, feed_eq]
+  simp only [Conn.init, Bool.false_eq_true, ↓reduceIte, List.nil_append]
+  have key := drainAll_validF d hs (fun f => (f, val f)) fs t
+    (fun f hf e => by rw [hdv]; exact envelopeC_frame h hst parse f e (val f) (hv f hf).1 (hv f hf).2)
+    (fun f hf => by
+      have := (hst.pos f f.length (hv f hf).1).1
+      intro h0; subst h0; simp at this)
+    (by rcases ht with rfl | ht
+        · left; rfl
+        · right; rw [hdv]; simp [envelopeC, ht])
+  rw [key]
+
+/-- non-vacuity + **negation witness**: a parser that sees the SUFFIX (constructed on everything buffered, what
+`codec.NewReader(data.Bytes()[4:])` does) makes the content of a frame depend on what follows it — here a two-frame tars
+stream whose parser reports the last byte it can see: frame-local under `frameCopy`, the neighbour's byte under `buffered`;
+and a parser that fails when it can see a truncated neighbour rejects the complete valid first frame. -/
+def wf1 : Bytes := [0, 0, 0, 6, 0x10, 0x01]
+def wf2 : Bytes := [0, 0, 0, 5, 0x77]
+def lastByte (w : Bytes) : Option UInt8 := w.getLast?
+def failsOnCutHead (w : Bytes) : Option Nat := if w.length == 6 then some 1 else none
+example : envelopeC tarsHdr .frameCopy lastByte wf1 = .frame (wf1, 0x01) 6 := by decide
+example : envelopeC tarsHdr .frameCopy lastByte (wf1 ++ wf2) = .frame (wf1, 0x01) 6 := by decide
+example : envelopeC tarsHdr .buffered lastByte (wf1 ++ wf2) = .frame (wf1, 0x77) 6 := by decide
+example : envelopeC tarsHdr .frameCopy failsOnCutHead (wf1 ++ wf2.take 2) = .frame (wf1, 1) 6 := by decide
+example : envelopeC tarsHdr .buffered failsOnCutHead (wf1 ++ wf2.take 2) = .error := by decide
+example : run (envelopeC tarsHdr .frameCopy lastByte) [wf1 ++ wf2] = run (envelopeC tarsHdr .frameCopy lastByte) [wf1, wf2] := by decide
+example : (run (envelopeC tarsHdr .buffered lastByte) [wf1 ++ wf2]).out ≠ (run (envelopeC tarsHdr .buffered lastByte) [wf1, wf2]).out := by decide
+example : contentStep "tars" lastByte = some (envelopeC tarsHdr .frameCopy lastByte) := by
+  simp [contentStep, hdrOf, parsers_read_frame_only.2.2.2.2]
+
+/-- the executable predicate of the `pkt` cases holds of the model's output -/
+theorem spec_pkt_holds_on_model {C : Type} (proto : String) (parse : Bytes → Option C) (h : Bytes → Hdr)
+    (d : Bytes → Step (Bytes × C)) (hh : hdrOf proto = some h) (hd : contentStep proto parse = some d)
+    (val : Bytes → C) (show_ : C → String) (fs : List Bytes) (t : Bytes)
+    (hv : ∀ f ∈ fs, h f = .len f.length ∧ parse f = some (val f)) (ht : t = [] ∨ h t = .needMore)
+    (chunks : List Bytes) (hc : chunks.flatten = fs.flatten ++ t) :
+    specPkt (fs.flatten ++ t).length (fs.map (fun f => (f.length, show_ (val f))))
+      ((run d chunks).out.map (fun x => show_ x.2)) (run d chunks).buf.length (run d chunks).failed = true := by
+  rw [content_local_stream proto parse h d hh hd val fs t hv ht chunks hc]
+  have he : (fun x : Bytes => x.length) = List.length := rfl
+  simp [specPkt, List.map_map, Function.comp_def, List.length_flatten, he, Nat.add_comm]
+
+/-! ### ownership of delivered HTTP/2 bodies -/
+
+/-- **h2_payload_copied**: in the current serverStreamConnection.handleFrame and clientStreamConnection.handleFrame
+(regenerated: every use of the DATA payload variable, every right-hand side assigned to stream.recData, the body
+argument of every OnReceive call) the payload — a window of the connection read buffer — is only measured, tested
+against nil and WRITTEN INTO a freshly allocated buffer; what is handed to the receiver is that buffer. -/
+theorem h2_payload_copied : passServer = .copy ∧ passClient = .copy := by decide
+
+/-- **delivered_stable**: under the copy discipline, for EVERY initial memory, every sequence of DATA frames (windows
+anywhere in the read buffer, single-frame and multi-frame bodies) interleaved with reads that rewrite the buffer, and
+EVERY list of later reads: what the receiver finds in the body object it was handed is the same whatever the read
+buffer holds by then. -/
+theorem delivered_stable (m0 : Mem) (evs : List FrameOwn.Ev) (later : List Mem) (m1 m2 : Mem) :
+    let s := later.foldl (fun s m => step .copy s (.refill m)) (run .copy m0 evs)
+    s.delivered.map (Body.read m1) = (run .copy m0 evs).delivered.map (Body.read m2) := by
+  intro s
+  have hk : s.delivered = (run .copy m0 evs).delivered := refills_keep .copy _ later
+  rw [hk]
+  rcases run_copy_owned m0 evs with h | ⟨b, h⟩ <;> simp [h, Body.read]
+
+/-- for the discipline the real handleFrame follows (both directions) -/
+theorem delivered_stable_http2 (m0 : Mem) (evs : List FrameOwn.Ev) (later : List Mem) (m1 m2 : Mem) :
+    (∀ p ∈ [passServer, passClient],
+      let s := later.foldl (fun s m => step p s (.refill m)) (run p m0 evs)
+      s.delivered.map (Body.read m1) = (run p m0 evs).delivered.map (Body.read m2)) := by
+  intro p hp
+  have : p = .copy := by
+    rcases List.mem_cons.1 hp with h | h
+    · rw [h]; exact h2_payload_copied.1
+    · rw [List.mem_singleton.1 h]; exact h2_payload_copied.2
+  subst this
+  exact delivered_stable m0 evs later m1 m2
+
+/-- non-vacuity + **negation witness for aliasing**: a single DATA frame with END_STREAM handed on as
+`NewIoBufferBytes(data)`: the receiver first reads the body, after the next read it reads bytes of later frames. -/
+def mem0 : Mem := [9, 9, 9, 1, 2, 3, 9]
+def mem1 : Mem := [7, 7, 7, 7, 7, 7, 7]
+example : (run .copy mem0 [.data 3 3 true]).delivered.map (Body.read mem0) = some [1, 2, 3] := by decide
+example : (run .copy mem0 [.data 3 3 true, .refill mem1]).delivered.map (Body.read mem1) = some [1, 2, 3] := by decide
+example : (run .alias mem0 [.data 3 3 true]).delivered.map (Body.read mem0) = some [1, 2, 3] := by decide
+example : (run .alias mem0 [.data 3 3 true, .refill mem1]).delivered.map (Body.read mem1) = some [7, 7, 7] := by decide
+example : (run .copy mem0 [.data 3 2 false, .refill mem1, .data 0 1 true]).delivered.map (Body.read mem1) = some [1, 2, 7] := by decide
+
+end ContentOwnership
 
 end MosnVerif.Props.C07
